@@ -18,6 +18,9 @@ PROFILES = {
         ('all-variants', 260, 2600, dict(rake_p=0.45), dict(probe_level=0, illegal=0.05)),
         ('short-stacks-antes', 140, 1400, dict(stacks='short', ante_p=0.9, rake_p=0.3), dict(probe_level=0, illegal=0.0, fold=0.05)),
         ('custom-street-lists', 120, 1200, dict(custom=True), dict(probe_level=0, illegal=0.0, fold=0.06)),
+        # Fraction-valued chips: the engine divides pots exactly (no odd chips); units of 1/15120 chip
+        ('fraction-chips', 120, 1200, dict(chips='fraction', rake_p=0.0, stacks='short', variants=FLOP + STUD + ['N2L1D'], boards=(1, 2, 2)),
+         dict(probe_level=0, illegal=0.0, fold=0.03, allin=0.2, runout=0.7)),
         # the known 'orphan pot' family on purpose: voluntary mucks and cash-game folds that leave a pot without contender
         ('orphan-pots-known-finding', 80, 800, dict(stacks='mixed', variants=FLOP + DRAW, no_autos=('Hole cards showing or mucking',)),
          dict(probe_level=0, illegal=0.0, fold=0.05, allin=0.15, manual_show=1.0, muck=0.85, allow_orphan=True)),
@@ -28,6 +31,8 @@ PROFILES = {
         ('showdowns-multiway', 220, 2200, dict(stacks='short', variants=FLOP + STUD, ante_p=0.7),
          dict(probe_level=0, illegal=0.0, fold=0.04, allin=0.2, manual_show=0.2)),
         ('hi-lo', 120, 1200, dict(variants=HILO, stacks='mixed'), dict(probe_level=0, illegal=0.0, fold=0.03, manual_show=0.2)),
+        ('fraction-chips', 100, 1000, dict(chips='fraction', rake_p=0.0, stacks='short', variants=FLOP + STUD, boards=(1, 2, 2)),
+         dict(probe_level=0, illegal=0.0, fold=0.03, allin=0.2, runout=0.7)),
         ('orphan-pots-known-finding', 60, 600, dict(stacks='mixed', variants=FLOP + DRAW, no_autos=('Hole cards showing or mucking',)),
          dict(probe_level=0, illegal=0.0, fold=0.05, allin=0.15, manual_show=1.0, muck=0.85, allow_orphan=True)),
         ('boards-and-runouts', 100, 1000, dict(variants=['NT', 'PO', 'NS', 'FO/8'], stacks='short', mode='C', boards=(1, 2, 2)),
